@@ -68,6 +68,18 @@ func directed(startIdx int) []*Case {
 				Utxos: []Utxo{{k, 0, coin}}, Dests: []Dest{{Kind: "f-p2pkh", Key: 1, Amount: coin / 2}}, Chain: j == 0})
 		}
 	}
+	// an altered transaction file in the balance folder (stored under the id of the real one,
+	// value raised), in the plain and in the witness serialisation, alone and behind an honest file
+	for i, k := range kinds {
+		for j, tm := range []string{"plain", "witness"} {
+			for _, lay := range []string{"sep", "sepwit", "shared"} {
+				add(&Case{Family: "directed-altered-file", Type: 3 + (i+j)%2, AType: atypeOfKind[k], Testnet: (i+j)%2 == 1, Layout: lay, Tamper: tm,
+					Utxos: []Utxo{{k, 0, coin}, {k, 1, coin / 2}}, Dests: []Dest{{Kind: "f-p2pkh", Key: 1, Amount: coin * 3}}})
+				add(&Case{Family: "directed-altered-file", Type: 3 + (i+j)%2, AType: atypeOfKind[k], Testnet: (i+j)%2 == 0, Layout: lay, Tamper: tm,
+					Utxos: []Utxo{{k, 0, coin}}, Dests: []Dest{{Kind: "f-p2wpkh", Key: 1, Amount: coin / 2}}})
+			}
+		}
+	}
 	// a co-signed transaction: somebody else's input of every kind, validly signed,
 	// offered with -raw under every atype
 	for i, at := range []string{"p2kh", "segwit", "bech32", "tap"} {
